@@ -709,6 +709,11 @@ class Norm:
             txt = unparse(stmt.value.func)
             if txt.startswith("LOGGER.") or ".type_check" in txt or txt.endswith("._check_sort") or txt.endswith("._validate_entry"):
                 return True
+            # a call on self to a private method whose value is discarded (ensure-sorted, check-membership, whatever it is called): it cannot contribute
+            # to the value the function returns except through state, which the rules that care (sort order, membership) decide on their own
+            f_ = stmt.value.func
+            if isinstance(f_, ast.Attribute) and isinstance(f_.value, ast.Name) and f_.value.id in ("self", "cls") and f_.attr.startswith("_") and not f_.attr.endswith("__"):
+                return True
         if isinstance(stmt, ast.AnnAssign) and stmt.value is None:
             return True
         if isinstance(stmt, ast.Pass):
